@@ -77,10 +77,14 @@ structure DialTry where
   host : HostAddr
   dialOk : Bool
   cert : ServerCert
+  /-- the caller's OWN verification callback (`VerifyConnection` / `VerifyPeerCertificate` of SslOpts.Config, which
+      crypto/tls runs after its own checks, also with InsecureSkipVerify) rejects this node -/
+  veto : Bool
   deriving DecidableEq, Repr
 
-/-- dial.go `defaultHostDialer.DialHost` + `WrapTLS`; `trust` = which signers the config's RootCAs contain -/
-def dialDefault (wrap : Wrap) (trust : Signer → Bool) (tls : Option OutCfg) (d : DialTry) : Option OutCfg × DialObs :=
+/-- dial.go `defaultHostDialer.DialHost` + `WrapTLS`; `trust` = which signers the config's RootCAs contain, `cb` =
+    the config is a clone of the caller's Config and so carries the caller's callbacks -/
+def dialDefault (wrap : Wrap) (trust : Signer → Bool) (cb : Bool) (tls : Option OutCfg) (d : DialTry) : Option OutCfg × DialObs :=
   match d.host.ip with
   | none => (tls, ⟨none, none, .panicNoAddr⟩)
   | some ip =>
@@ -93,36 +97,42 @@ def dialDefault (wrap : Wrap) (trust : Signer → Bool) (tls : Option OutCfg) (d
         | some t =>
           let r := wrap t (joinHostPort d.host.name d.host.port)   -- HostnameAndPort()
           (some r.1, ⟨some tcp, some r.2,
-            if tlsAccepts t.insecure (trust (d.cert.signer)) r.2 d.cert then .tls else .errTls⟩)
+            if tlsAccepts t.insecure (trust (d.cert.signer)) r.2 d.cert && !(cb && d.veto) then .tls else .errTls⟩)
 
 /-- several dials through one `defaultHostDialer`, in order; the state is its `tlsConfig` -/
-def dialSeq (wrap : Wrap) (trust : Signer → Bool) (tls : Option OutCfg) : List DialTry → List DialObs
+def dialSeq (wrap : Wrap) (trust : Signer → Bool) (cb : Bool) (tls : Option OutCfg) : List DialTry → List DialObs
   | [] => []
-  | d :: ds => (dialDefault wrap trust tls d).2 :: dialSeq wrap trust (dialDefault wrap trust tls d).1 ds
+  | d :: ds => (dialDefault wrap trust cb tls d).2 :: dialSeq wrap trust cb (dialDefault wrap trust cb tls d).1 ds
 
 /-- the dialer's `tlsConfig` after the dials -/
-def dialFinal (wrap : Wrap) (trust : Signer → Bool) (tls : Option OutCfg) : List DialTry → Option OutCfg
+def dialFinal (wrap : Wrap) (trust : Signer → Bool) (cb : Bool) (tls : Option OutCfg) : List DialTry → Option OutCfg
   | [] => tls
-  | d :: ds => dialFinal wrap trust (dialDefault wrap trust tls d).1 ds
+  | d :: ds => dialFinal wrap trust cb (dialDefault wrap trust cb tls d).1 ds
 
 def trustOf (c : DialCfg) : Signer → Bool :=
   match c.ssl with
   | some o => rootsTrust o
   | none => fun _ => false
 
+/-- does the derived config carry the caller's callbacks?  (`Config.Clone()` keeps them; without a Config there are none) -/
+def cbOf (c : DialCfg) : Bool :=
+  match c.ssl with
+  | some o => o.cfg.isSome
+  | none => false
+
 /-- every `DialHost` call of a session configured with `c`, in order (error: `connConfig` failed, nothing is dialled) -/
 def dialAll (c : DialCfg) (ds : List DialTry) : Except TlsErr (List DialObs) :=
   match connConfig c with
   | .error e => .error e
   | .ok .caller => .ok (ds.map (fun _ => ⟨none, none, .caller⟩))
-  | .ok (.dflt _ tls) => .ok (dialSeq wrapCode (trustOf c) tls ds)
+  | .ok (.dflt _ tls) => .ok (dialSeq wrapCode (trustOf c) (cbOf c) tls ds)
 
 /-- one dial -/
 def dialHost (c : DialCfg) (d : DialTry) : Except TlsErr DialObs :=
   match connConfig c with
   | .error e => .error e
   | .ok .caller => .ok ⟨none, none, .caller⟩
-  | .ok (.dflt _ tls) => .ok (dialDefault wrapCode (trustOf c) tls d).2
+  | .ok (.dflt _ tls) => .ok (dialDefault wrapCode (trustOf c) (cbOf c) tls d).2
 
 /-! #### what the property demands of a dial (stated without the dialling code) -/
 namespace Spec
@@ -136,11 +146,12 @@ structure DialDemand where
 
 /-- With SslOpts the driver talks TLS on EVERY connection it dials itself — whichever TCP dialer is configured — and
     hands the connection on exactly when the documented table says "do not verify" or the node's certificate is
-    signed by a CA the client was given and valid for the expected name; without SslOpts the connection is plain. -/
-def dialDemand (ssl : Option SslOpts) (name : List UInt8) (cert : ServerCert) : DialDemand :=
+    signed by a CA the client was given and valid for the expected name — and the caller's own verification callback
+    (which the derived config must still carry) does not reject the node; without SslOpts the connection is plain. -/
+def dialDemand (ssl : Option SslOpts) (name : List UInt8) (cert : ServerCert) (veto : Bool) : DialDemand :=
   match ssl with
   | none => ⟨false, true⟩
-  | some o => ⟨true, mayProceed o name cert⟩
+  | some o => ⟨true, mayProceed o name cert && !(o.cfg.isSome && veto)⟩
 
 end Spec
 
